@@ -205,6 +205,18 @@ V_Import(e) ==
                               d == NodeDiff(want, e.res.v.node)
                           IN IF d # "same" THEN "import-" \o d ELSE "ok"
 
+\* the version prefix alone determines key type, network and BIP flavour (and maps back)
+\* e.inp = version (4 bytes); e.res.v = [prv, net, bip, back (4 bytes)]
+V_VersionParse(e) ==
+  LET k == ImportKind(e.inp)
+  IN IF ~k.ok THEN (IF Raised(e) THEN "ok" ELSE "version-parse-accepted-unknown-version")
+     ELSE IF Raised(e) THEN "version-parse-raised-on-known-version"
+     ELSE IF e.res.v.prv # k.prv THEN "version-key-type"
+     ELSE IF e.res.v.net # k.net THEN "version-network"
+     ELSE IF e.res.v.bip # k.bip THEN "version-bip-flavour"
+     ELSE IF e.res.v.back # e.inp THEN "version-does-not-map-back"
+     ELSE "ok"
+
 ---------------------------------------------------------------------------
 \* C09 key encodings
 V_PubOf(e) ==                \* e.inp = k (32 bytes, valid)
@@ -455,7 +467,10 @@ KindSeq == <<"p2pkh", "p2wpkh", "p2sh_p2wpkh", "p2wsh", "p2sh_p2wsh">>
 V_Watch(e) ==
   LET root == InPrv(e, e.inp.root)
       x == K32!DerivePath(e, root, e.inp.export)
-      k == ImportKind(e.inp.version)
+      \* route "wallet": the key was exported through the full wallet's own node_extended_keys(); whatever
+      \* flavour it chose, the network must be the full wallet's
+      k == IF e.inp.route = "wallet" THEN [ok |-> TRUE, prv |-> FALSE, net |-> root.net, bip |-> "any"]
+           ELSE ImportKind(e.inp.version)
   IN IF x.out # "ok" \/ ~k.ok \/ k.prv THEN "ok"
      ELSE
      LET wroot == [K32!Neuter(x.node) EXCEPT !.net = k.net]
@@ -615,6 +630,7 @@ Verdict(e) ==
     [] e.act = "ExtSer" -> V_ExtSer(e)
     [] e.act = "ExtParse" -> V_ExtParse(e)
     [] e.act = "Import" -> V_Import(e)
+    [] e.act = "VersionParse" -> V_VersionParse(e)
     [] e.act = "PubOf" -> V_PubOf(e)
     [] e.act = "PrivCtor" -> V_PrivCtor(e)
     [] e.act = "Wif" -> V_Wif(e)
